@@ -58,6 +58,7 @@ var scalarTypes = map[string]reflect.Type{
 	"float32": reflect.TypeOf(float32(0)), "float64": reflect.TypeOf(float64(0)), "string": reflect.TypeOf(""), "bytes": reflect.TypeOf([]byte(nil)),
 	"timestamp": reflect.TypeOf(ion.Timestamp{}), "time": reflect.TypeOf(time.Time{}), "decimal": reflect.TypeOf(ion.Decimal{}), "bigint": reflect.TypeOf(big.Int{}),
 	"iface": reflect.TypeOf((*interface{})(nil)).Elem(), "anntokens": reflect.TypeOf([]ion.SymbolToken(nil)),
+	"symtok": reflect.TypeOf(ion.SymbolToken{}), "stringer": reflect.TypeOf((*fmt.Stringer)(nil)).Elem(),
 }
 
 var (
@@ -355,6 +356,10 @@ func ModelOf(v reflect.Value, hint Hint) model.Value {
 		return model.TSV(TSOfTime(tm))
 	case decimalT:
 		d := v.Interface().(ion.Decimal)
+		if reflect.DeepEqual(d, ion.Decimal{}) {
+			// the zero Decimal (what a null leaves behind) has no coefficient at all
+			return model.NullOf(model.Null)
+		}
 		return model.Value{Kind: model.Decimal, Dec: DecOf(&d)}
 	case bigIntT:
 		b := v.Interface().(big.Int)
